@@ -278,6 +278,9 @@ func (e *evalCtx) ident(name string) sval {
 		if v, ok := e.t.ghostVals[name]; ok {
 			return v
 		}
+		if v, ok := e.t.unreachedGhost(name); ok {
+			return v
+		}
 		if srt, ok := e.t.h.sorts["ghost:u:"+name]; ok {
 			return sval{term: e.t.h.get(e.st, "ghost:u:"+name), sort: srt}
 		}
@@ -1055,6 +1058,44 @@ func (e *evalCtx) callExpr(x *sx) sval {
 			return boolv("(atoi_ok " + v.term + ")")
 		}
 		return intv("(atoi_val " + v.term + ")")
+	case "pcall":
+		// pcall(x, "M"): the result of the argument-less interface method M of x, which the interface
+		// contract declares `pure` (the same uninterpreted function a call site of x.M() gets)
+		v := e.eval(args[0])
+		if args[1].op != "str" || v.sort != "Iface" || v.typ == nil {
+			e.fail("pcall(x, \"Method\") needs an interface value and a method name")
+		}
+		it, okI := v.typ.Underlying().(*types.Interface)
+		if !okI {
+			e.fail("pcall: %s is not an interface", v.typ)
+		}
+		var m *types.Func
+		for i := 0; i < it.NumMethods(); i++ {
+			if it.Method(i).Name() == args[1].val {
+				m = it.Method(i)
+			}
+		}
+		if m == nil {
+			e.fail("pcall: no method %s", args[1].val)
+		}
+		sig := m.Type().(*types.Signature)
+		if sig.Params().Len() != 0 || sig.Results().Len() != 1 {
+			e.fail("pcall: %s must take no arguments and return one value", args[1].val)
+		}
+		if fc := t.g.ann.ifaces[t.g.ifaceKeyOf(v.typ, m.Name())]; fc == nil || !fc.pure {
+			e.fail("pcall: interface method %s has no `pure` contract", args[1].val)
+		}
+		rt := sig.Results().At(0).Type()
+		fn := t.c.declareFun("pure:"+m.Name()+":Iface", []string{"Iface"}, t.sortOf(rt))
+		return e.mk("("+fn+" "+v.term+")", rt)
+	case "hasprefix":
+		// hasprefix(s, p): strings.HasPrefix(s, p) (the same uninterpreted function the library model uses)
+		a, b := e.eval(args[0]), e.eval(args[1])
+		if a.sort != "Str" || b.sort != "Str" {
+			e.fail("hasprefix() needs two strings")
+		}
+		hp := t.c.declareFun("str_hasprefix", []string{"Str", "Str"}, "Bool")
+		return boolv("(" + hp + " " + a.term + " " + b.term + ")")
 	case "str":
 		// str(b): the string conversion string(b) of a byte slice (same term the code's conversion gets)
 		v := e.eval(args[0])
